@@ -29,13 +29,14 @@ for d in sorted(glob.glob(f"{V}/seeded/*")):
         by = m.get("miss_reason", "—")
     rows.append(f"| {sid} | {m['summary']} | {status} | {by} |")
 table = ["| change | what it does | result | reported by / why missed |", "|---|---|---|---|"] + rows
-def rnd(sid): return 1 if sid.endswith(("-1", "-2")) else 2
-stats = {1: [0, 0, 0], 2: [0, 0, 0]}
+def rnd(sid): return 1 if sid.endswith(("-1", "-2")) else 2 if sid.endswith(("-3", "-4")) else 3
+stats = {1: [0, 0, 0], 2: [0, 0, 0], 3: [0, 0, 0]}
 for d in sorted(glob.glob(f"{V}/seeded/*")):
     sid = os.path.basename(d); m = json.load(open(d + "/meta.json"))
     st = stats[rnd(sid)]; st[0] += 1; st[1] += bool(m.get("reported_first_run")); st[2] += bool(m.get("reported"))
+ids = {1: "-1/-2", 2: "-3/-4", 3: "-5/-6"}
 txt = "\n".join(table) + "\n\n" + "".join(
-    f"Round {k} (ids ending in {'-1/-2' if k == 1 else '-3/-4'}): {v[0]} changes; {v[1]} reported by the rules as they stood when the round was run, {v[2]} after strengthening, {v[0]-v[2]} missed.\n" for k, v in stats.items())
+    f"Round {k} (ids ending in {ids[k]}): {v[0]} changes; {v[1]} reported by the rules as they stood when the round was run, {v[2]} after strengthening, {v[0]-v[2]} missed.\n" for k, v in stats.items())
 p = f"{V}/DESIGN.md"
 s = open(p).read()
 if "SEEDED-TABLE-PLACEHOLDER" in s:
